@@ -1,6 +1,7 @@
 import asyncio
 import math
 import sys
+import threading
 
 from klongpy.core import KGCall, KGFn, KGFnWrapper
 
@@ -12,14 +13,18 @@ class KGTimerHandler:
         self.delegate = None
         self.cancelled = False
         self.tick = 0
+        # .timerc may come from another thread than the timer's loop (a web handler runs on the io loop):
+        # cancelling and re-arming exclude each other
+        self.lock = threading.RLock()
 
     def cancel(self):
-        if self.delegate is None:
-            return 0
-        self.delegate.cancel()
-        self.delegate = None
-        self.cancelled = True
-        return 1
+        with self.lock:
+            if self.delegate is None:
+                return 0
+            self.delegate.cancel()
+            self.delegate = None
+            self.cancelled = True
+            return 1
     
     def __str__(self):
         return f"timer:{self.name}:{self.interval}"
@@ -30,19 +35,20 @@ def _call_periodic(loop: asyncio.BaseEventLoop, name, interval, callback):
 
     def run(handle, fn=callback):
         r = fn()
-        if handle.cancelled:
-            # .timerc was issued from inside the callback: do not re-arm
-            return
-        if r:
-            if interval == 0:
-                handle.delegate = loop.call_soon(run, handle)
+        with handle.lock:
+            if handle.cancelled:
+                # .timerc was issued while the callback ran (from inside it or from another thread): do not re-arm
+                return
+            if r:
+                if interval == 0:
+                    handle.delegate = loop.call_soon(run, handle)
+                else:
+                    # next boundary by index: never the one that has just fired, even when the loop
+                    # dispatched it exactly on (or within clock resolution before) its deadline
+                    handle.tick = max(handle.tick + 1, math.floor((loop.time() - start) / interval) + 1)
+                    handle.delegate = loop.call_at(start + handle.tick * interval, run, handle)
             else:
-                # next boundary by index: never the one that has just fired, even when the loop
-                # dispatched it exactly on (or within clock resolution before) its deadline
-                handle.tick = max(handle.tick + 1, math.floor((loop.time() - start) / interval) + 1)
-                handle.delegate = loop.call_at(start + handle.tick * interval, run, handle)
-        else:
-            handle.cancel()
+                handle.cancel()
 
     periodic = KGTimerHandler(name, interval)
     if interval == 0:
